@@ -127,7 +127,8 @@ def _twin_view(f):
 
 def _keep(text, node):
     t = text
-    return "SCHEMA" in t or "INFO." in t
+    # conditions on the schema / column bookkeeping only: what the data contains is not part of the declared semantics
+    return ("SCHEMA" in t or "INFO." in t) and "DATA" not in t
 
 
 def _keep_with_data(text, node):
@@ -149,6 +150,27 @@ def _schema_cond(cfg, nid, view, with_data=False):
 def _effect_sites(f, mapping):
     """(kind, key, stmt) effect sites of a twin function."""
     sites = []
+    # verdict variables: `passed = False` ... CoreCheckResult(passed=passed, reason_code=R) is the same failing result as
+    # CoreCheckResult(passed=False, reason_code=R) built at the point of the assignment
+    cfg = cfg_of(f.node)
+    users = []   # (verdict variable, statement node id, reason codes) of CoreCheckResult(passed=<variable>, ...)
+    for st in function_stmts(f):
+        for c in (calls_in(st) if isinstance(st, (ast.Expr, ast.Assign, ast.Return)) else []):
+            if callee_last(c) == "CoreCheckResult" and isinstance(kw(c, "passed"), ast.Name):
+                rc = kw(c, "reason_code")
+                node = cfg.node_of(st)
+                if node is not None:
+                    users.append((kw(c, "passed").id, node.id, reason_codes_in(rc) if rc is not None else ["<none>"]))
+    for s in function_stmts(f):
+        if isinstance(s, ast.Assign) and len(s.targets) == 1 and isinstance(s.targets[0], ast.Name) \
+                and isinstance(s.value, ast.Constant) and s.value.value is False and any(u[0] == s.targets[0].id for u in users):
+            reach = cfg.reachable(cfg.node_of(s).id, skip_labels=("exc", "fin-exc"))
+            codes = set()
+            for var, nid, rcs in users:
+                if var == s.targets[0].id and nid in reach:
+                    codes.update(rcs)
+            for r in sorted(codes):
+                sites.append(("result", r, s))
     for s in function_stmts(f):
         if isinstance(s, ast.Raise) and isinstance(s.exc, ast.Call) and callee_last(s.exc) == "SchemaError":
             rc = kw(s.exc, "reason_code")
